@@ -42,6 +42,8 @@ type threadState struct {
 	budget    int
 	points    int
 	maxPoints int
+	frozen    bool // set-up phase: no enumerated decisions, points not counted
+	frozenPoints int
 	abort     chan struct{}
 	wg        sync.WaitGroup
 	fatal     any
@@ -115,10 +117,17 @@ func (ts *threadState) raiseToMain(e *Engine, r any) {
 // reschedule is a scheduling point. forceAway: the current thread gives way
 // to another runnable thread if there is one (sleep), at no budget cost.
 func (ts *threadState) reschedule(e *Engine, why string, forceAway bool) {
-	ts.points++
-	if ts.points > ts.maxPoints {
-		e.res.Stubs["schedule: path cut at the scheduling-point bound"]++
-		panic(pathEnd{"pruned", "scheduling-point bound"})
+	if !ts.frozen {
+		ts.points++
+		if ts.points > ts.maxPoints {
+			e.res.Stubs["schedule: path cut at the scheduling-point bound"]++
+			panic(pathEnd{"pruned", "scheduling-point bound"})
+		}
+	} else {
+		ts.frozenPoints++
+		if ts.frozenPoints > 100000 {
+			panic(pathEnd{"budget", "frozen schedule does not terminate"})
+		}
 	}
 	cur := ts.cur
 	curOK := ts.runnable(cur)
@@ -151,10 +160,10 @@ func (ts *threadState) reschedule(e *Engine, why string, forceAway bool) {
 		e.reportViolation("no-deadlock", "deadlock", "all goroutines are blocked:"+blocked, e.posString(e.pos), nil)
 		panic(pathEnd{"deadlock", blocked})
 	}
-	k := e.pick(len(options))
+	k := ts.choose(e, len(options))
 	next := options[k]
 	if next != cur {
-		if curOK && !forceAway {
+		if curOK && !forceAway && !ts.frozen {
 			ts.budget--
 		}
 		e.events = append(e.events, fmt.Sprintf("switch %s -> %s at %s", cur.name, next.name, why))
@@ -240,7 +249,7 @@ func (ts *threadState) spawnFn(e *Engine, name string, body func()) {
 					ts.raiseToMain(e, r)
 				}
 			}()
-			k := e.pick(len(others))
+			k := ts.choose(e, len(others))
 			ts.switchTo(e, others[k])
 		}()
 	}()
@@ -399,3 +408,12 @@ func (ts *threadState) waitZero(e *Engine, ctr *Cell) {
 }
 
 func (ts *threadState) access(e *Engine, c *Cell, write bool, pos token.Pos) {}
+
+// choose is an enumerated scheduling decision, or the first option while the
+// schedule is frozen (set-up phase along one representative schedule).
+func (ts *threadState) choose(e *Engine, n int) int {
+	if ts.frozen {
+		return 0
+	}
+	return e.pick(n)
+}
